@@ -2283,23 +2283,25 @@ class Fn(
         found_unselected = False
 
         for addr, value in x.items():
-            is_selected, subselection = selection.match(addr)
-            if is_selected:
-                if isinstance(value, dict) and subselection is not None:
-                    # Recursively filter nested choices
-                    selected_sub, unselected_sub = self.filter(value, subselection)
-                    if selected_sub is not None:
-                        selected[addr] = selected_sub
-                        found_selected = True
-                    if unselected_sub is not None:
-                        unselected[addr] = unselected_sub
-                        found_unselected = True
-                else:
-                    # Include the entire value in selected
-                    selected[addr] = value
+            # Whether `selection` matches at this level says nothing about what its
+            # remainder selects further down (e.g. `~sel(("a", "b"))` misses "a" but
+            # still selects "a"/"c"): sub-maps are always split with the remainder,
+            # and a leaf is selected iff the remainder selects it - the same test
+            # `regenerate` applies at the leaf.
+            _, subselection = selection.match(addr)
+            if isinstance(value, dict) and value:
+                # Recursively filter nested choices
+                selected_sub, unselected_sub = self.filter(value, subselection)
+                if selected_sub is not None:
+                    selected[addr] = selected_sub
                     found_selected = True
+                if unselected_sub is not None:
+                    unselected[addr] = unselected_sub
+                    found_unselected = True
+            elif not isinstance(value, dict) and () in subselection:
+                selected[addr] = value
+                found_selected = True
             else:
-                # Include the entire value in unselected
                 unselected[addr] = value
                 found_unselected = True
 
